@@ -173,14 +173,17 @@ class Check:
             return None
         return out
 
-    def run_harness(self, hprop, extra_args="", timeout=3000):
-        out = os.path.join(self.scratch, "out")
+    def run_harness(self, hprop, extra_args="", timeout=3000, tier=None, outname="out"):
+        out = os.path.join(self.scratch, outname)
         os.makedirs(out, exist_ok=True)
         env = dict(GOENV)
         if getattr(self, "cdrv", None):
             env["VERIF_CDRV"] = self.cdrv
-        rc, txt = sh("./h -prop %s -seed %d -tier %s -out %s %s" % (hprop, self.seed, self.tier, out, extra_args),
-                     cwd=os.path.join(self.scratch, "harness"), env=env, timeout=timeout)
+        try:
+            rc, txt = sh("./h -prop %s -seed %d -tier %s -out %s %s" % (hprop, self.seed, tier or self.tier, out, extra_args),
+                         cwd=os.path.join(self.scratch, "harness"), env=env, timeout=timeout)
+        except subprocess.TimeoutExpired:
+            rc, txt = 124, "timeout after %ds" % timeout
         cases = os.path.join(out, hprop + ".cases")
         stats = {}
         try:
@@ -245,6 +248,38 @@ class Check:
                 if oracle.startswith("bad"):
                     res["oracle_bad"].append({"line": i, "cmd": cmd, "args": args, "impl": impl, "model": model, "oracle": oracle})
         return res
+
+    # ------------------------------------------------------------ search
+    def search_deeper(self, hprop, extra_args, res, nontrivial, budget=1200):
+        """The tie broke on the quick generator but no property oracle failed there: look for a
+        concrete failing input with the thorough generator (same seed) before giving up."""
+        if self.tier != "quick" or self.replay:
+            return
+        if not res["tie_mismatch"] or any(not self.match_finding(b) for b in res["oracle_bad"]):
+            return
+        if all(self.match_finding(m) for m in res["tie_mismatch"]):
+            return
+        self.notes.append("tie broken without an oracle failure on the quick generator: searching the thorough generator for a failing input (budget %ds)" % budget)
+        cases, _ = self.run_harness(hprop, extra_args, timeout=budget, tier="thorough", outname="search")
+        if cases is None or not os.path.exists(cases):
+            # a timed-out harness may still have flushed part of its cases
+            cases = os.path.join(self.scratch, "search", hprop + ".cases")
+            if not os.path.exists(cases):
+                return
+            data = open(cases, "rb").read()
+            cut = data.rfind(b"\n")
+            open(cases, "wb").write(data[:cut + 1] if cut >= 0 else b"")
+        try:
+            model = self.run_driver(cases, timeout=budget)
+        except subprocess.TimeoutExpired:
+            model = None
+        if model is None:
+            return
+        res2 = self.compare(cases, model, nontrivial)
+        found = [b for b in res2["oracle_bad"] if not self.match_finding(b)]
+        self.notes.append("deeper search: %d cases, %d oracle failures" % (res2["evaluations"], len(found)))
+        res["oracle_bad"] += found
+        res["search_evaluations"] = res2["evaluations"]
 
     # ------------------------------------------------------------ classify
     def write_replay(self, name, obj):
